@@ -52,16 +52,16 @@ type Violation struct {
 
 // Result is what one worker reports.
 type Result struct {
-	Evaluations   int64            `json:"evaluations"`
-	Hashes        []uint64         `json:"hashes"`
-	ExactDistinct int64            `json:"exact_distinct"`
-	Counters      map[string]int64 `json:"counters"`
+	Evaluations   int64               `json:"evaluations"`
+	Hashes        []uint64            `json:"hashes"`
+	ExactDistinct int64               `json:"exact_distinct"`
+	Counters      map[string]int64    `json:"counters"`
 	Sets          map[string][]string `json:"sets"`
-	Samples       []interface{}    `json:"samples"`
-	Violations    []Violation      `json:"violations"`
-	Inconclusive  []string         `json:"inconclusive"`
-	Exhaustive    bool             `json:"exhaustive"`
-	Done          bool             `json:"done"`
+	Samples       []interface{}       `json:"samples"`
+	Violations    []Violation         `json:"violations"`
+	Inconclusive  []string            `json:"inconclusive"`
+	Exhaustive    bool                `json:"exhaustive"`
+	Done          bool                `json:"done"`
 }
 
 // Ctx is handed to Check.Run in a worker.
@@ -74,13 +74,13 @@ type Ctx struct {
 	Only    string // replay: only the case with this key
 	Verbose bool
 
-	mu      sync.Mutex
-	res     Result
-	hashes  map[uint64]struct{}
-	sets    map[string]map[string]struct{}
-	journal *os.File
+	mu         sync.Mutex
+	res        Result
+	hashes     map[uint64]struct{}
+	sets       map[string]map[string]struct{}
+	journal    *os.File
 	maxSamples int
-	sigCount map[string]int
+	sigCount   map[string]int
 }
 
 func (c *Ctx) Quick() bool { return c.Tier != "thorough" }
@@ -248,7 +248,12 @@ func TopLibFrame(stack string) string {
 // ---------------------------------------------------------------------------------------------
 // parent side
 
-var VerifDir = "/verif"
+var VerifDir = func() string {
+	if d := os.Getenv("VERIF_DIR"); d != "" {
+		return d
+	}
+	return "/verif"
+}()
 
 func envSeed() uint64 {
 	s := os.Getenv("VERIF_SEED")
@@ -456,9 +461,9 @@ func runParent(ck *Check, tier string, seed uint64, only string) int {
 	}
 
 	type wres struct {
-		r      *Result
-		err    string
-		fatal  *Violation
+		r     *Result
+		err   string
+		fatal *Violation
 	}
 	results := make([]wres, n)
 	var wg sync.WaitGroup
@@ -674,15 +679,15 @@ func runParent(ck *Check, tier string, seed uint64, only string) int {
 		cov["samples"] = []interface{}{"(no sample recorded)"}
 	}
 	ev := map[string]interface{}{
-		"property_id": ck.ID,
-		"tier":        tier,
-		"seed":        int64(seed),
-		"level":       ck.Level,
-		"coverage":    cov,
-		"assumptions": ck.Assumptions,
-		"wall_s":      time.Since(t0).Seconds(),
-		"violations":  nviol,
-		"verdict":     verdict(nviol, inconclusive),
+		"property_id":          ck.ID,
+		"tier":                 tier,
+		"seed":                 int64(seed),
+		"level":                ck.Level,
+		"coverage":             cov,
+		"assumptions":          ck.Assumptions,
+		"wall_s":               time.Since(t0).Seconds(),
+		"violations":           nviol,
+		"verdict":              verdict(nviol, inconclusive),
 		"inconclusive_reasons": inconclusive,
 	}
 	if only == "" {
